@@ -30,6 +30,9 @@ ASSUMPTIONS = ['an optimum on which two independent solvers agree is the optimum
                'ECOS exit flag 10 (close to optimal) / numerical problems are not judged']
 
 
+CRASH_IS_VIOLATION = True     # a solver interface that takes the process down (see runner)
+
+
 def gen_case(rng, idx, tier):
     r = rng.random()
     if r < 0.25:
